@@ -22,8 +22,8 @@ type escapeRec struct {
 	line                 int
 }
 type mutateRec struct {
-	fn, op, expr, origin, path, file string
-	line                             int
+	fn, op, expr, origin, path, taint, file string
+	line                                    int
 }
 
 func calleeName(e ast.Expr) string {
@@ -254,6 +254,7 @@ func analyseEscapes(fset *token.FileSet, files []*ast.File, fnames []string) ([]
 	for _, f := range fns {
 		fd := f.decl
 		org, fresh := originOf(fd)
+		tenv := newTaintEnv(fd)
 		params := map[string]bool{}
 		if fd.Recv != nil {
 			for _, p := range fd.Recv.List {
@@ -282,7 +283,7 @@ func analyseEscapes(fset *token.FileSet, files []*ast.File, fnames []string) ([]
 			if i := strings.Index(path, "."); i >= 0 {
 				path = path[:i]
 			}
-			muts = append(muts, mutateRec{fd.Name.Name, op, exprString2(target), origin, path, f.file, fset.Position(pos).Line})
+			muts = append(muts, mutateRec{fd.Name.Name, op, exprString2(target), origin, path, tenv.of(target), f.file, fset.Position(pos).Line})
 		}
 		stored := map[*ast.CallExpr]bool{}
 		ast.Inspect(fd.Body, func(n ast.Node) bool {
@@ -309,7 +310,7 @@ func analyseEscapes(fset *token.FileSet, files []*ast.File, fnames []string) ([]
 					}
 				}
 				switch {
-				case (pkg == "slices" && (strings.HasPrefix(name, "Sort") || name == "Reverse")) ||
+				case (pkg == "slices" && (strings.HasPrefix(name, "Sort") || name == "Reverse" || aliasingFuncs[name])) ||
 					(pkg == "sort" && (name == "Strings" || name == "Ints" || name == "Slice" || name == "SliceStable" || name == "Sort" || name == "Stable")):
 					if len(x.Args) > 0 {
 						record(pkg+"."+name, x.Args[0], x.Pos())
@@ -350,6 +351,15 @@ func exprString2(e ast.Expr) string {
 	return "?"
 }
 
+func printMutationsOnly(name string, muts []mutateRec) string {
+	q := func(s string) string { return "\"" + strings.ReplaceAll(s, "\"", "'") + "\"" }
+	var items []string
+	for _, m := range muts {
+		items = append(items, fmt.Sprintf("mkmut %s %s %s %s %s %s %s %d", q(m.fn), q(m.op), q(m.expr), q(m.origin), q(m.path), q(m.taint), q(m.file), m.line))
+	}
+	return "Definition " + name + " : list cmutate :=\n  [ " + strings.Join(items, ";\n    ") + " ].\n"
+}
+
 func printEscapes(escs []escapeRec, muts []mutateRec) string {
 	q := func(s string) string { return "\"" + strings.ReplaceAll(s, "\"", "'") + "\"" }
 	var sb strings.Builder
@@ -360,7 +370,7 @@ func printEscapes(escs []escapeRec, muts []mutateRec) string {
 	sb.WriteString("\nDefinition client_escapes : list cescape :=\n  [ " + strings.Join(items, ";\n    ") + " ].\n")
 	items = nil
 	for _, m := range muts {
-		items = append(items, fmt.Sprintf("mkmut %s %s %s %s %s %s %d", q(m.fn), q(m.op), q(m.expr), q(m.origin), q(m.path), q(m.file), m.line))
+		items = append(items, fmt.Sprintf("mkmut %s %s %s %s %s %s %s %d", q(m.fn), q(m.op), q(m.expr), q(m.origin), q(m.path), q(m.taint), q(m.file), m.line))
 	}
 	sb.WriteString("\nDefinition client_mutations : list cmutate :=\n  [ " + strings.Join(items, ";\n    ") + " ].\n")
 	return sb.String()
